@@ -2420,23 +2420,22 @@ impl KotoVm {
         rhs: KValue,
         op: KValue,
     ) -> Result<bool> {
+        let old_frame_count = self.call_stack.len();
+
         // The registers used by the call are discarded once the call is complete
-        let register_count = self.registers.len();
-        self.call_overridden_op_2(None, lhs, rhs, op)?;
-        self.frame_mut().execution_barrier = true;
-        match self.execute_instructions() {
-            Ok(result) => {
-                self.registers.truncate(register_count);
-                match result {
-                    KValue::Bool(result) => Ok(result),
-                    unexpected => unexpected_type("Bool", &unexpected),
-                }
-            }
-            Err(error) => {
-                self.pop_frame(KValue::Null)?;
-                self.registers.truncate(register_count);
-                Err(error)
-            }
+        let result_register = self.new_frame_base()?;
+        self.registers.push(KValue::Null); // Result register
+
+        if let Err(error) = self.call_overridden_op_2(Some(result_register), lhs, rhs, op) {
+            self.truncate_registers(result_register);
+            return Err(error);
+        }
+
+        // The op is either a native function that has already been called,
+        // or a Koto function that needs to be run to completion.
+        match self.get_overridden_op_result(old_frame_count, result_register)? {
+            KValue::Bool(result) => Ok(result),
+            unexpected => unexpected_type("Bool", &unexpected),
         }
     }
 
@@ -4342,6 +4341,7 @@ mod macros {
 
             // The registers used by the call are discarded once the call is complete
             let register_count = $self.registers.len();
+            let old_frame_count = $self.call_stack.len();
 
             // Call the map's op function
             $self.call_overridden_op_2(
@@ -4350,6 +4350,12 @@ mod macros {
                 $rhs.clone(),
                 op,
             )?;
+
+            if $self.call_stack.len() == old_frame_count {
+                // A native function was called, the result is already in the result register
+                $self.registers.truncate(register_count);
+                return Ok(());
+            }
 
             // Execute the function immediately so that we can check for `koto.unimplemented` errors
             // - Enable the execution barrier on the function's frame so errors aren't propagated
